@@ -21,17 +21,17 @@ import (
 )
 
 const (
-	NKeypers     = 3
-	Threshold    = 2
-	MaxPerMsg    = 2 // configured maximum number of shares / keys per message
-	InstanceID   = 55
-	ReceiverIdx  = 1 // index of the receiver in the keyper sets it is a member of
-	hugeIndex    = uint64(1)<<63 + 5
-	eonOverflow  = uint64(1)<<63 + 1
-	eonWrap32    = uint64(1)<<32 + 1
-	eonUnknown   = uint64(9)
-	otherTopic   = "verifUnsubscribedTopic"
-	badVersion   = "0.0.2"
+	NKeypers    = 3
+	Threshold   = 2
+	MaxPerMsg   = 2 // configured maximum number of shares / keys per message
+	InstanceID  = 55
+	ReceiverIdx = 1 // index of the receiver in the keyper sets it is a member of
+	hugeIndex   = uint64(1)<<63 + 5
+	eonOverflow = uint64(1)<<63 + 1
+	eonWrap32   = uint64(1)<<32 + 1
+	eonUnknown  = uint64(9)
+	otherTopic  = "verifUnsubscribedTopic"
+	badVersion  = "0.0.2"
 )
 
 // config indices of the set classes in the receiver's database
